@@ -16,7 +16,8 @@ from . import core
 from .core import hx, codes, canon, ROOT
 from .p_parser import export, write_cfg, cfg_text
 
-NAMES = {1: ".h.conf", 2: "10-a.conf", 3: "9-b.conf", 4: "B.conf", 5: "a.conf", 6: "a.conf.bak", 7: "conf"}
+NAMES = {1: ".conf", 2: ".h.conf", 3: "10-a.conf", 4: "9-b.conf", 5: "B.conf", 6: "a.conf", 7: "a.conf.bak", 8: "conf", 9: "\xc3\xa9.conf"}
+CARRY = [2, 3, 4, 5, 6, 9]      # names that carry the suffix .conf
 
 
 def body(l, r, shape):
@@ -257,7 +258,7 @@ def classify(t):
         f.append("nomain")
     elif hasmain[-1] in ("empty", "devnull"):
         f.append("silent-main")
-    names = [n for d in t["drop"] for n in d if n <= 5]
+    names = [n for d in t["drop"] for n in d if n in CARRY]
     if len(names) != len(set(names)):
         f.append("masked")
     if names:
@@ -292,7 +293,7 @@ def tree_export(nlay, nameset, maxdrops, shapes, invariants=("LayeredIsUapi", "H
 def check_c01(exe, tier, seed, verdict):
     rnd = random.Random(seed)
     # exhaustive: 3 layers x 4 main kinds x all subsets of 3 (quick) / 4 (thorough) suffix-carrying names
-    names = [2, 3, 5] if tier == "quick" else [2, 3, 4, 5]
+    names = [3, 4, 6] if tier == "quick" else [3, 4, 5, 6]
     shapes = ["bb", "ns", "sn"] if tier == "quick" else ["bb", "ns", "sn", "nn", "ss", "bs"]
     r, recs, total = tree_export(3, names, 12, shapes[:1] if tier == "quick" else shapes[:1])
     if r.violated:
@@ -304,7 +305,7 @@ def check_c01(exe, tier, seed, verdict):
     samples = [{"tree": tree_text({"main": x["main"], "drop": x["drop"], "shp": x["shp"]}), "expect": x["rc"], "result": show_ents(x["exp"]["ents"])}
                for x in recs[7000:7002]]
     # other content shapes and the whole name pool (names without the suffix, dot file): bounded number of drop-ins
-    r2, recs2, total2 = tree_export(3, [1, 2, 3, 4, 5, 6, 7], 2 if tier == "quick" else 3, shapes)
+    r2, recs2, total2 = tree_export(3, [1, 2, 3, 4, 5, 6, 7, 8, 9], 2 if tier == "quick" else 3, shapes)
     if r2.violated:
         verdict.violation("C01:model", {"tlc": r2.out[-3000:]}, "TLC: Read(tree) differs from UapiRef(tree)\n" + r2.out[-1500:])
     if tier == "quick":
@@ -322,10 +323,10 @@ def check_c01(exe, tier, seed, verdict):
     # shapes that change the tree universe
     for sn, nlay in (("parsing_dirs", 1), ("parsing_dirs", 2), ("parsing_dirs", 4), ("readdirs", 2), ("readdirs_nulldist", 2)):
         if sn == "readdirs_nulldist":
-            rr, cc, _ = tree_export(2, [2, 5], 4, ["bb"])
+            rr, cc, _ = tree_export(2, [3, 6], 4, ["bb"])
             cc = [x for x in cc if x["main"][0] == "absent" and not x["drop"][0]]
         else:
-            rr, cc, _ = tree_export(nlay, [2, 3, 5] if nlay < 4 else [2, 5], 12, ["bb"])
+            rr, cc, _ = tree_export(nlay, [3, 4, 6] if nlay < 4 else [3, 6], 12, ["bb"])
         if rr.violated:
             verdict.violation("C01:model", {"tlc": rr.out[-3000:]}, "TLC: Read(tree) differs from UapiRef(tree) (NLay=%d)" % nlay)
         if len(cc) > 600:
@@ -338,7 +339,7 @@ def check_c01(exe, tier, seed, verdict):
     n += replay_trees(exe, nomain, Shape("noname"), verdict, "C01")
     evals += len(nomain)
     # suffix absent: every name counts
-    rs, cs, _ = tree_export(3, [5, 6, 7], 4, ["bb"], invariants=("HistoryFolds",))
+    rs, cs, _ = tree_export(3, [1, 6, 7, 8], 4, ["bb"], invariants=("HistoryFolds",))
     n += replay_nosuffix(exe, cs, verdict)
     evals += len(cs)
     # project and config name both NULL: refused, not crash
@@ -382,7 +383,7 @@ def replay_nosuffix(exe, recs, verdict):
             files.append((hm[-1], 0))
         eff = []
         for l, d in enumerate(t["drop"], 1):
-            for n in sorted(d, key=lambda n: NAMES[n].encode()):
+            for n in sorted(d, key=lambda n: NAMES[n].encode("latin-1")):
                 if not any(n in t["drop"][j] for j in range(l, len(t["drop"]))):
                     eff.append((l, n))
         files += eff
@@ -460,8 +461,8 @@ def check_c06(exe, tier, seed, verdict):
     if mc.violated:
         verdict.violation("C06:model", {"tlc": mc.out[-3000:]}, "TLC: callback protocol invariant violated in the model\n" + mc.out[-1500:])
     # trees: 3 layers, names {2,5}: every tree, every single rejected position + random subsets
-    r, recs, total = tree_export(3, [2, 5], 12, ["bb"])
-    r2, recs2, _ = tree_export(2, [2, 3, 5], 12, ["bb"])
+    r, recs, total = tree_export(3, [3, 6], 12, ["bb"])
+    r2, recs2, _ = tree_export(2, [3, 4, 6], 12, ["bb"])
     entries3 = ["std"]
     entries2 = ["readdirscb", "readhistcb", "rc2cb"]
     scen = []
@@ -589,7 +590,7 @@ def sorted_ents(ents):
 # --------------------------------------------------------------------------------------
 def check_c12(exe, tier, seed, verdict):
     rnd = random.Random(seed)
-    names = [2, 3, 5]
+    names = [3, 4, 6]
     r, recs, total = tree_export(2, names, 12, ["bb", "ns", "sn"] if tier == "thorough" else ["bb", "sn"])
     if r.violated:
         verdict.violation("C12:model", {"tlc": r.out[-3000:]}, "TLC: HistoryFolds / LayeredIsUapi violated for 2 layers\n" + r.out[-1500:])
@@ -670,6 +671,7 @@ def check_c12(exe, tier, seed, verdict):
                 nn += 1
     # NULL / empty directory arguments
     ok += check_null_dirs(exe, verdict)
+    ok += check_confdirs(exe, rnd.sample(recs, min(len(recs), 300)), verdict)
     cov = {"states": r.distinct, "transitions": r.generated, "traces_validated_against_impl": ok,
            "evaluations": len(recs) * 7, "distinct_nontrivial": nn,
            "rule": "every 2-layer tree (main x4 per layer, every subset of 3 names per layer, content shapes) exported by TLC (%d trees, %d replayed): econf_readDirs, econf_readDirsWithCallback, econf_readConfig(+WithCallback) with PARSING_DIRS=<the same two directories>, econf_readDirsHistory(+WithCallback) and econf_readDirs under econf_set_conf_dirs are all run on the SAME tree and each compared with the specification's expectation (so with each other); history members: path -> file identity, own content, order; model invariant HistoryFolds: folding the history with masking gives the result. non-trivial = >= 2 files consulted and all seven calls compared." % (total, len(recs)),
@@ -677,6 +679,80 @@ def check_c12(exe, tier, seed, verdict):
            "exhaustive": tier == "thorough",
            "trusted_base": ["TLC 1.8.0", "gcc ASan/UBSan", "drv.c"]}
     return cov
+
+
+def check_confdirs(exe, recs, verdict):
+    """C12 with a NON-default process-wide drop-in directory list: <name>.conf.d AND <name>/alt.d, the second one
+    populated.  All merged-result entry points must agree, both history variants must agree, and the history
+    folded with masking (Trace_Layers!THistFold, FoldMerge of the specification) must give that result."""
+    cases = []
+    for i, x in enumerate(recs):
+        R = ROOT + "/cd%d" % (i % 16)
+        t = {"main": x["main"], "drop": x["drop"], "shp": x["shp"]}
+        s, paths = materialise(t, Shape("readdirs", 2), R)
+        for l, d in ((1, R + "/usr/etc"), (2, R + "/etc")):
+            if (i + l) % 3:
+                s.append("file %s %s" % (hx(d + "/cfg/alt.d/zz-alt%d.conf" % l), hx("K=alt%d\nALT%d=1\n" % (l, l))))
+            if (i + l) % 4 == 0:   # same name as a normal drop-in of the other postfix directory of a HIGHER layer is avoided: unique names only
+                s.append("file %s %s" % (hx(d + "/cfg/alt.d/y-alt.conf"), hx("Y=%d\n" % l)))
+        sc = s + ["setconfdirs %s %s" % (hx(".conf.d"), hx("/alt.d"))]
+        h = 1
+        for ent in ("readdirs", "readdirscb", "rc2", "rc2cb"):
+            sc += ["cbreset"] + Shape(ent, 2).call(h, R, cb=ent.endswith("cb")) + ["dump %d" % h, "free %d" % h]
+            h += 10
+        for ent in ("readhist", "readhistcb"):
+            sc += ["cbreset"] + Shape(ent, 2).call(h, R, cb=ent.endswith("cb")) + ["dump %d" % k for k in range(h, h + 10)] + ["free %d" % k for k in range(h, h + 10)]
+            h += 10
+        sc += ["setconfdirs", "cbreset"]
+        cases.append((i, sc))
+    res = core.run_cases(exe, cases)
+    events = []
+    idx = []
+    for i, x in enumerate(recs):
+        out = res.get(i)
+        t = {"main": x["main"], "drop": x["drop"], "shp": x["shp"]}
+        if out is None or out["crash"]:
+            verdict.violation("C12:confdirs:crash", {"kind": "tree", "tree": t, "crash": (out or {}).get("crash")}, "entry points under econf_set_conf_dirs crashed on %s\n%s" % (tree_text(t), (out or {}).get("crash", "")[:800]))
+            continue
+        ev = out["ev"]
+        reads = [(j, e) for j, e in enumerate(ev) if e["op"].startswith("read")]
+        rcs = [e["rc"] for _, e in reads]
+        if len(set(rcs)) != 1:
+            verdict.violation("C12:confdirs:rc", {"kind": "tree", "tree": t, "rcs": rcs}, "entry points disagree under a non-default drop-in directory list on %s: %s" % (tree_text(t), rcs))
+            continue
+        if rcs[0] != "ECONF_SUCCESS":
+            continue
+        results = []
+        hists = []
+        for (j, rd) in reads:
+            dumps = []
+            for e in ev[j + 1:]:
+                if e["op"] == "dump":
+                    dumps.append(e)
+                elif e["op"].startswith("read"):
+                    break
+            if rd["op"].startswith("readhist"):
+                hists.append([{"name": codes(os.path.basename(d["st"]["path"])), "ents": listing_of_dump(d) or []} for d in dumps[:rd["n"]] if d["st"]])
+            else:
+                results.append(sorted_ents(listing_of_dump(dumps[0]) or []))
+        events.append({"e": "histfold", "hist": hists[0], "results": results, "hist2_same": hists[0] == hists[1]})
+        idx.append(i)
+    if not events:
+        return 0
+    okk, tr, _ = core.validate_trace("Trace_Layers", os.path.join(core.SPEC, "Trace_Layers.cfg"), events, timeout=1200)
+    mism = [x for x in tr.json_lines() if "mismatch" in x]
+    if not okk and not mism:
+        raise core.ToolFailure("Trace_Layers (histfold) did not consume the trace:\n" + tr.out[-2000:])
+    for m in mism[:20]:
+        i = idx[m["mismatch"] - 1]
+        x = recs[i]
+        e = events[m["mismatch"] - 1]
+        t = {"main": x["main"], "drop": x["drop"], "shp": x["shp"]}
+        fp = "C12:confdirs:first-dropin-unmasked-without-main:content:histfold" if f4_class(x) and e["hist2_same"] and len({canon(r) for r in e["results"]}) == 1 else "C12:confdirs:histfold"
+        verdict.violation(fp, {"kind": "tree", "tree": t, "event": e, "spec": m.get("spec")},
+                          "under econf_set_conf_dirs({.conf.d, /alt.d}) on %s: history (%d members, both variants equal: %s) folded with masking gives %s\nmerged results: %s" % (
+                              tree_text(t), len(e["hist"]), e["hist2_same"], show_ents(m["spec"]["folded"]), [show_ents(r) for r in e["results"]][:2]))
+    return len(events) - len(mism)
 
 
 def check_null_dirs(exe, verdict):
@@ -709,7 +785,7 @@ BADLINES = [("[S", "ECONF_MISSING_BRACKET"), ("[S] x", "ECONF_TEXT_AFTER_SECTION
 
 def c13_tree_cases(exe, tier, seed, verdict):
     rnd = random.Random(seed)
-    r, recs, total = tree_export(3, [2, 5], 12, ["bb"])
+    r, recs, total = tree_export(3, [3, 6], 12, ["bb"])
     recs = [x for x in recs if len(x["log"]) >= 1]
     rnd.shuffle(recs)
     budget = 400 if tier == "quick" else 5000
